@@ -18,7 +18,13 @@ Monitors (class-level wrappers, own event record, no code shared with e2e.py):
        handled while an execution that is due has not been finished; start not before the
        time of the decision that was applied last
   C01  recount of the demand resident on a worker after every place_task
-  C05  logical watchdogs (zero-length steps, events per instant) and SIMULATOR_END reached
+  C05  logical watchdogs (zero-length steps, events per instant) and SIMULATOR_END reached;
+       a run that ends before its timeout leaves nothing SCHEDULED / RUNNING and no RELEASED
+       task that fits an empty worker
+  C06  every state change seen at a Task mutator is on the legal lifecycle; unschedule()
+       restores the state the scheduled episode began in; a cancelled task's descendants
+       (harness' own edge list) never start and end CANCELLED; final states stay final
+       (the chaos policy also retracts, re-plans and cancels)
 """
 import logging
 import random
@@ -75,6 +81,9 @@ def gen_direct(parts):
     policy = {"lookahead": rng.choice([0, 0, 3, 10, 100]), "release_taskgraphs": rng.random() < 0.5,
               "retract": rng.random() < 0.3, "p_unplaced": rng.choice([0.0, 0.1, 0.3]), "max_offset": rng.choice([0, 2, 6, 12]),
               "pin_worker": rng.random() < 0.5, "seed": rng.randrange(1 << 30)}
+    # drawn last so that the worlds of earlier runs keep their other dimensions
+    policy["p_cancel"] = rng.choice([0.0, 0.0, 0.04, 0.12])
+    policy["p_replan"] = rng.choice([0.0, 0.5, 1.0])
     return {"pools": pools, "graphs": graphs, "policy": policy, "frequency": rng.choice([-1, -1, 1, 4]), "timeout": rng.choice([120, 200, 400]),
             "res_names": res_names}
 
@@ -92,6 +101,9 @@ class Ctx:
         self.resident = {}  # id(worker) -> {id(task): demand}
         self.flags = set()
         self.ended = False
+        self.end_time = None
+        self.task_spec = {}
+        self.policy_decision = {}  # id(task) -> the Placement the chaos policy returned last (boundary record)
 
     def count(self, k, n=1):
         self.counters[k] = self.counters.get(k, 0) + n
@@ -155,6 +167,7 @@ def _install():
                             f"{name} at t={et} handled while {u}, due to complete at {d}, is still running")
         if name == "SIMULATOR_END":
             ctx.ended = True
+            ctx.end_time = et
     wrap(Sim, "_Simulator__handle_event", before=handle_before)
 
     def trec(ctx, task):
@@ -203,6 +216,18 @@ def _install():
             ctx.count("starts_with_parents")
         if missing:
             ctx.violate("C02", "start_before_parents", f"{name} started at {t}, unfinished parents {missing}")
+        pd = ctx.policy_decision.get(id(self))
+        if pd is not None:
+            ctx.count("starts_vs_policy_decision")
+            if pd.placement_type.name != "PLACE_TASK" or not pd.is_placed():
+                ctx.violate("C03", "start_without_standing_decision", f"{name} started at {t} but the policy's last answer was {pd.placement_type.name} placed={pd.is_placed()}")
+            elif r["decision"] is not None and (r["decision"].execution_strategy is not pd.execution_strategy
+                                                or r["decision"].placement_time != pd.placement_time):
+                ctx.violate("C03", "runs_other_decision_than_policy_returned",
+                            f"{name}: policy returned t={pd.placement_time.time} runtime {pd.execution_strategy.runtime.time}, "
+                            f"task was told t={r['decision'].placement_time.time} runtime {r['decision'].execution_strategy.runtime.time}")
+            if pd.is_placed():
+                r["decision"] = pd
         pl = r["decision"]
         if pl is not None and pl.placement_time is not None and t < pl.placement_time.time:
             ctx.violate("C03", "start_before_chosen_time", f"{name} started at {t} < chosen {pl.placement_time.time}")
@@ -263,6 +288,114 @@ def _install():
             res.pop(id(task), None)
     wrap(wk.Worker, "remove_task", after=remove_after)
 
+    # ---- C06: lifecycle automaton on every Task mutator ------------------------------------
+    def lifecycle(method):
+        def before(ctx, self, *a, **k):
+            r = trec(ctx, self)
+            r["_pre"] = self._state.name
+            if "state" not in r:
+                r["state"] = r["_pre"]
+
+        def after(ctx, ret, self, *a, **k):
+            r = trec(ctx, self)
+            pre, post = r.pop("_pre", None), self._state.name
+            name = f"{r['key'][1]}@{r['key'][2]} of {r['key'][0]}"
+            ctx.count("transitions")
+            if pre != r.get("state", pre):
+                ctx.violate("C06", "state_written_outside_mutators", f"{name}: {r.get('state')} -> {pre} before {method}")
+            if pre != post or method == "schedule":
+                if (pre, post) not in LEGAL and not (pre == post and method == "release"):
+                    ctx.violate("C06", "illegal_transition", f"{name}: {pre} -> {post} via {method}")
+                if pre in ("COMPLETED", "CANCELLED") and post != pre:
+                    ctx.violate("C06", "left_final_state", f"{name}: {pre} -> {post} via {method}")
+                if post == "VIRTUAL" and r["released"] is not None:
+                    ctx.violate("C06", "released_task_back_to_virtual", f"{name}: released at {r['released']}, {pre} -> VIRTUAL via {method}")
+            if method == "schedule" and pre != "SCHEDULED":
+                r["pre_sched"] = pre
+            elif method == "schedule":
+                ctx.count("replans_of_scheduled_task")
+            elif method == "release" and pre == "SCHEDULED":
+                r["pre_sched"] = "RELEASED"
+            elif method == "unschedule":
+                ctx.count("unschedule_fallbacks_checked")
+                want = r.get("pre_sched")
+                if post == "SCHEDULED" or (want is not None and post != want):
+                    ctx.violate("C06", "unschedule_did_not_restore", f"{name}: unschedule left {post}, state before scheduling was {want}")
+            elif method == "cancel":
+                ctx.count("cancels")
+                r["cancelled"] = ctx.clock
+            r["state"] = post
+        wrap(Task, method, before=active(before), after=active(after))
+
+    for m in ("release", "schedule", "unschedule", "start", "finish", "cancel"):
+        lifecycle(m)
+
+
+LEGAL = {
+    ("VIRTUAL", "RELEASED"), ("VIRTUAL", "SCHEDULED"), ("RELEASED", "SCHEDULED"),
+    ("SCHEDULED", "SCHEDULED"), ("SCHEDULED", "VIRTUAL"), ("SCHEDULED", "RELEASED"),
+    ("SCHEDULED", "RUNNING"), ("RUNNING", "COMPLETED"),
+    ("VIRTUAL", "CANCELLED"), ("RELEASED", "CANCELLED"), ("SCHEDULED", "CANCELLED"),
+}
+
+
+def _final_checks(ctx, world, tasks_by_key, timeout):
+    """end-of-run rules; tasks_by_key: key -> Task object (harness' own map)"""
+    states = {k: t._state.name for k, t in tasks_by_key.items()}
+    # starved = some parent (own edge list; these graphs have no conditionals) is cancelled or starved
+    starved = {}
+
+    def is_starved(k, depth=0):
+        if k in starved:
+            return starved[k]
+        starved[k] = False
+        v = any(states.get(p) == "CANCELLED" or is_starved(p) for p in ctx.parents.get(k, ()))
+        starved[k] = v
+        return v
+    has_child = {p for k in tasks_by_key for p in ctx.parents.get(k, ())}
+    if any(states[k] == "CANCELLED" and k in has_child for k in tasks_by_key):
+        ctx.flags.add("cancel_with_descendants")
+    for k, t in tasks_by_key.items():
+        r = ctx.by_key.get(k)
+        name = f"{k[1]}@{k[2]} of {k[0]}"
+        if r is not None and r.get("state") is not None and r["state"] != states[k]:
+            ctx.violate("C06", "state_written_outside_mutators", f"{name}: {r['state']} -> {states[k]} (no mutator call)")
+        if is_starved(k):
+            ctx.count("starved_tasks_judged")
+            if states[k] != "CANCELLED" and ctx.status == "ended":
+                ctx.violate("C06", "starved_not_cancelled", f"{name} is {states[k]} although a predecessor was cancelled")
+            if r is not None and r["starts"]:
+                # a start after the cancellation of an ancestor
+                anc_cancel = min((ctx.by_key[p].get("cancelled") for p in _ancestors(ctx, k)
+                                  if p in ctx.by_key and ctx.by_key[p].get("cancelled") is not None), default=None)
+                if anc_cancel is not None and r["starts"][0] > anc_cancel:
+                    ctx.violate("C06", "starved_task_started", f"{name} started at {r['starts'][0]}, ancestor cancelled at {anc_cancel}")
+    if ctx.status == "ended" and ctx.end_time is not None and ctx.end_time < timeout:
+        ctx.count("early_end_judged")
+        left = []
+        for k, t in tasks_by_key.items():
+            st = states[k]
+            if st in ("SCHEDULED", "RUNNING"):
+                left.append((f"{k[1]}@{k[2]} of {k[0]}", st))
+            elif st == "RELEASED":
+                spec = ctx.task_spec[k]
+                if any(any(all(req.get(n, 0) <= w["cap"].get(n, 0) for n in req) for p in world["pools"] for w in p["workers"])
+                       for req, _ in spec["strategies"]):
+                    left.append((f"{k[1]}@{k[2]} of {k[0]}", st))
+        if left:
+            ctx.violate("C05", "ended_with_work_remaining", f"ended at {ctx.end_time} < timeout {timeout} with {left[:6]}")
+
+
+def _ancestors(ctx, k):
+    seen, stack = set(), list(ctx.parents.get(k, ()))
+    while stack:
+        p = stack.pop()
+        if p in seen:
+            continue
+        seen.add(p)
+        stack.extend(ctx.parents.get(p, ()))
+    return seen
+
 
 def _make_chaos(policy, pools_desc):
     from schedulers import BaseScheduler
@@ -282,6 +415,13 @@ def _make_chaos(policy, pools_desc):
             out = []
             pools = list(worker_pools.worker_pools)
             for task in tasks:
+                if task.state.name == "SCHEDULED" and rng.random() >= policy.get("p_replan", 1.0):
+                    continue  # leaves an earlier plan alone (no decision for this task)
+                if rng.random() < policy.get("p_cancel", 0.0) and task.state.name != "RUNNING":
+                    out.append(Placement.create_task_cancellation(task))
+                    if _CTX is not None:
+                        _CTX.count("chaos_cancellations")
+                    continue
                 if rng.random() < policy["p_unplaced"]:
                     out.append(Placement.create_task_placement(task=task, placement_time=None, worker_pool_id=None,
                                                                execution_strategy=None))
@@ -293,9 +433,20 @@ def _make_chaos(policy, pools_desc):
                 if rt is not None and not rt.is_invalid() and when < rt:
                     when = rt  # planning a task before its own release time is a policy bug the simulator asserts on
                 wid = rng.choice(pool.workers).id if policy["pin_worker"] and rng.random() < 0.5 else None
+                prev = _CTX.policy_decision.get(id(task)) if _CTX is not None else None
+                if (task.state.name == "SCHEDULED" and prev is not None and prev.is_placed() and prev.placement_time >= sim_time
+                        and rng.random() < 0.4):
+                    # re-plan that keeps time and place and only (possibly) changes the strategy
+                    when, wid = prev.placement_time, prev.worker_id
+                    pool = next((p for p in pools if p.id == prev.worker_pool_id), pool)
+                    if pool.id != prev.worker_pool_id:
+                        wid = None
+                    _CTX.count("chaos_same_slot_replans")
                 out.append(Placement.create_task_placement(task=task, placement_time=when, worker_pool_id=pool.id, worker_id=wid,
                                                            execution_strategy=strat))
             if _CTX is not None:
+                for p in out:
+                    _CTX.policy_decision[id(p.task)] = p
                 _CTX.count("chaos_calls")
                 _CTX.count("chaos_placements", sum(1 for p in out if p.is_placed()))
             return Placements(runtime=EventTime.zero(), true_runtime=EventTime.zero(), placements=out)
@@ -320,6 +471,13 @@ def run_direct(world, wall_s=30):
     lg.addHandler(logging.NullHandler())
     lg.propagate = False
     lg.setLevel(logging.CRITICAL)
+    # without flags the repository's setup_logging() gives these loggers a DEBUG stream handler on stdout; a logger that
+    # already has a handler is returned as it is, so pre-create them silent (the monitors read no log here)
+    for name in ("Simulator", "Simulator_CSV", "Workload", "ChaosScheduler", "Resources", "Task", "Worker", "WorkerPool", "WorkerPools"):
+        q = logging.getLogger(name)
+        q.addHandler(logging.NullHandler())
+        q.propagate = False
+        q.setLevel(logging.CRITICAL)
     if not _INSTALLED:
         _install()
         _INSTALLED = True
@@ -338,6 +496,7 @@ def run_direct(world, wall_s=30):
             ws.append(wo)
         pools.append(wk.WorkerPool(name=p["name"], workers=ws, _logger=lg))
     tgs = {}
+    all_tasks = {}
     for g in world["graphs"]:
         objs = {}
         for t in g["tasks"]:
@@ -345,6 +504,7 @@ def run_direct(world, wall_s=30):
                 wl.ExecutionStrategy(resources=wl.Resources(resource_vector={wl.Resource(name=n, _id="any"): q for n, q in req.items()}, _logger=lg),
                                      batch_size=1, runtime=us(rt)) for req, rt in t["strategies"]])
             prof = wl.WorkProfile(name=f"{g['name']}_{t['job']}_profile", execution_strategies=strategies)
+            ctx.task_spec[(g["name"], t["job"], t["ts"])] = t
             objs[(t["job"], t["ts"])] = wl.Task(name=t["job"], task_graph=g["name"], job=wl.Job(name=t["job"], profile=prof),
                                                 deadline=us(t["deadline"]), timestamp=t["ts"], release_time=us(t["release"]), _logger=lg)
         tg = wl.TaskGraph(name=g["name"], job_graph=wl.JobGraph(name=g["name"]))
@@ -354,6 +514,7 @@ def run_direct(world, wall_s=30):
             ctx.parents.setdefault((g["name"], b[0], b[1]), []).append((g["name"], a[0], a[1]))
         for k, o in objs.items():
             tg.add_task(o, kids[k])
+            all_tasks[(g["name"], k[0], k[1])] = o
         tgs[g["name"]] = tg
     workload = wl.Workload.from_task_graphs(tgs)
 
@@ -391,6 +552,9 @@ def run_direct(world, wall_s=30):
         tb = traceback.extract_tb(e.__traceback__)
         where = next((f"{f.filename.split('/')[-1]}:{f.name}" for f in reversed(tb) if "/vmon/" not in f.filename), "?")
         status, exc = "exception", f"{type(e).__name__}@{where}: {e}"
+        # every decision of the chaos policy is legal input (own strategies, existing pools, times >= now and >= release):
+        # an exception escaping simulate() means the run did not reach its end event
+        ctx.violate("C05", f"exception:{type(e).__name__}@{where}", str(e)[:300])
     finally:
         signal.alarm(0)
         signal.signal(signal.SIGALRM, old)
@@ -398,4 +562,6 @@ def run_direct(world, wall_s=30):
     ctx.status, ctx.exception, ctx.wall = status, exc, _time.time() - t0
     if status == "no_end_event":
         ctx.violate("C05", "no_simulator_end", "simulate() returned without handling SIMULATOR_END")
+    if status in ("ended", "no_end_event"):
+        _final_checks(ctx, world, all_tasks, world["timeout"])
     return ctx
